@@ -878,6 +878,53 @@ def nest2(ctx):
     ctx.floor("NEST2", 5)
 
 
+SCOPE_ADAPTERS = [
+    ("map", "map(|&x| x)"), ("filter", "filter(|&&x| px(x))"), ("filter_map", "filter_map(|&x| ox(x))"),
+    ("take_while", "take_while(|&&x| px(x))"), ("skip_while", "skip_while(|&&x| px(x))"), ("flat_map", "flat_map(|&x| sx(x))"),
+]
+SCOPE_SRC = """
+#![allow(unused)]
+#[inline(never)] pub fn px(x: u32) -> bool { loop {} }
+#[inline(never)] pub fn ox(x: u32) -> Option<u32> { loop {} }
+#[inline(never)] pub fn sx(x: u32) -> &'static [u32; 2] { loop {} }
+#[inline(never)] pub fn mark<T>(item: T, outer: u32) -> u32 { loop {} }
+""" + "".join("pub fn s_%s(v: &[u32; 2], x: u32) -> u32 { konst::iter::eval!(v, %s, map(|y| mark(y, x)), fold(0u32, |a, b| a ^ b)) }\n" % (n, c)
+              for n, c in SCOPE_ADAPTERS)
+
+
+def closure_scope(ctx):
+    """SCOPE: a closure's parameter is visible inside that closure only.  Each witness has an outer variable `x`, an adapter whose
+    closure parameter is also called `x`, and a later closure that mentions `x`: as in std, that must be the outer one (in the MIR:
+    the marker's second argument is the function's parameter), not the earlier closure's parameter still in scope of the expansion."""
+    prog, diag = witness_program(ctx, "w10s", SCOPE_SRC)
+    if prog is None:
+        ctx.violation("SCOPE", "witness", "the closure-scope witness crate does not compile:\n%s" % diag[-2000:])
+        return
+    for n, c in SCOPE_ADAPTERS:
+        b = prog.get("w10s::s_" + n)
+        if b is None:
+            ctx.violation("SCOPE", n, "witness s_%s missing" % n)
+            continue
+        try:
+            paths = sym.through_loops(b, prog, keep_back=True, nested=True, max_paths=4000, opaque=OPAQUE)
+        except sym.TooManyPaths:
+            ctx.violation("SCOPE", n, "too many paths")
+            continue
+        args = set()
+        for p in paths:
+            for e in p.events:
+                if e[0] == "call" and e[1] == "w10s::mark":
+                    args.add(table.strip_gargs(e[2])[4])
+        if not args:
+            ctx.violation("SCOPE", n, "s_%s: the later closure is never run" % n)
+        elif args != {("p", 2)}:
+            ctx.violation("SCOPE", n, "after `%s`, a later closure's `x` is %s instead of the caller's own variable `x`: the parameter of the "
+                          "%s closure stays in scope for the rest of the chain (std: closure parameters are local to their closure)" % (
+                              c, sorted(show(a) for a in args), n), b.file())
+        ctx.instance("SCOPE", n, sample={"adapter": n, "later_x": sorted(show(a) for a in args)})
+    ctx.floor("SCOPE", len(SCOPE_ADAPTERS))
+
+
 def validate_nested(ctx, prog, ch, idx, pnames, src_ty, K):
     """chains with one flat_map/flatten: the generated code is an outer loop over the source and an (unlabelled) inner loop
     over the sub-iterator; both iteration relations are compared with the composed schema, state symbol by state symbol"""
@@ -1202,6 +1249,7 @@ def run(ctx):
     ctx.extra["disagreements_checked"] = len(chains)
     ctx.extra["samples"] = samples or [{"chain": "-"}]
     nest2(ctx)
+    closure_scope(ctx)
     from .. import macrolint
     macrolint.hygiene_rule(ctx, ["iter_eval", "for_each", "iter_collect_const"], facts.REPO)
     ctx.floor("TV", 400)
